@@ -75,6 +75,13 @@ def gen_c05(rnd, tier):
                     cases.append(('setitem', [a, (randbits(rnd, lv), rnd.choice(SIDES))], (s, e)))
             for i in range(n):
                 cases.append(('setint', [a, (rnd.choice('01'), rnd.choice(SIDES))], (i,)))
+    # large operands whose lengths are computed independently (beyond CPython's small-int cache and beyond a few hundred pieces)
+    for n in ([257, 258, 300, 511, 512, 1000, 2100] if T else [257, 300, 1024]):
+        for sa in SIDES:
+            a = (randbits(rnd, n), sa)
+            b2 = (randbits(rnd, rnd.choice([n, 1, 7, 259])), rnd.choice(SIDES))
+            cases += [('add', [a, b2], ()), ('copy', [a], ()), ('iter', [a], ()), ('pad', [a], ('L' if sa == 'R' else 'R', 0)),
+                      ('getitem', [a], (rnd.randint(0, 100), rnd.randint(200, n))), ('setitem', [a, b2], (rnd.randint(0, 100), rnd.randint(100, 257)))]
     if T:
         # every content for short operands
         for la in range(0, 7):
@@ -122,6 +129,17 @@ def gen_c06(rnd, tier):
         cases.append(('shift', [a], (rnd.randint(-(n + 8), n + 8), rnd.randint(0, 1))))
         cases.append(('value', [a], ()))
         cases.append(('chunks', [a], (rnd.randint(1, 40), rnd.randint(0, 1))))
+    # large operands: equal lengths above 256 computed independently; buffers splitting into more than a thousand pieces
+    for n in ([257, 258, 264, 300, 511, 512, 1000, 1024, 4000] if T else [257, 300, 1024]):
+        for sa in SIDES:
+            for sb in SIDES:
+                for op in ('and', 'or', 'xor'):
+                    cases.append((op, [(randbits(rnd, n), sa), (randbits(rnd, int(str(n))), sb)], ()))
+            cases.append(('invert', [(randbits(rnd, n), sa)], ()))
+            cases.append(('value', [(randbits(rnd, n), sa)], ()))
+    for n, k in ([(9000, 8), (17000, 16), (1100, 1), (40000, 16), (12001, 8)] if T else [(9000, 8), (17000, 16), (1100, 1)]):
+        for sd in SIDES:
+            cases.append(('chunks', [(randbits(rnd, n), sd)], (k, rnd.randint(0, 1))))
     if T:
         for n in range(0, 13):
             for c in all_bits(n):
